@@ -16,6 +16,7 @@ external c_fileset_destroy : nativeint -> unit = "vp_fileset_destroy"
 external c_fileset_source : nativeint -> nativeint = "vp_fileset_source"
 external c_fileset_reload : nativeint -> unit = "vp_fileset_reload"
 external c_fileset_reload_now : nativeint -> unit = "vp_fileset_reload_now"
+external c_fileset_init_dupsort : string -> int -> int -> nativeint = "vp_fileset_init_dupsort"
 external c_fileset_partition : nativeint -> int -> nativeint * nativeint = "vp_fileset_partition"
 
 let engine = "fs"
@@ -264,6 +265,38 @@ let check acc ~klass (interval, nf, rf, ops) =
    | Exited (_, s) -> fail acc ~kind:"model_mismatch" ~what:"[C07] harness error" (JO [ "case", Lazy.force case; "msg", JS s ]));
   ignore (Sys.command (Printf.sprintf "rm -rf %s" (Filename.quote dir)))
 
+(* a fileset configured with a dupsort function and no merge function (mtbl_fileset_options_set_dupsort_func): every entry
+   of every file is returned, keys ascending, the entries of one key ordered by the dupsort function *)
+let fileset_dupsort acc =
+  List.iter (fun (kind, ids) ->
+    let case = lazy (JO [ "op", JS "fileset with dupsort, no merge function"; "dupsort", JS (if kind = 1 then "ascending" else "descending"); "tables", JL (List.map (fun t -> JI t) ids) ]) in
+    record acc ~key:(Printf.sprintf "dupsort%d-%s" kind (String.concat "," (List.map string_of_int ids))) ~nontrivial:true ~klass:"fileset_dupsort" case;
+    let dir = Filename.concat (Wr.tmpdir ()) (Printf.sprintf "fsd_%d" (Unix.getpid ())) in
+    ignore (Sys.command (Printf.sprintf "rm -rf %s && mkdir -p %s" (Filename.quote dir) (Filename.quote dir)));
+    let r = in_child (fun () ->
+        let setfile = Filename.concat dir "set.fileset" in
+        List.iteri (fun i t -> write_table (Filename.concat dir (Printf.sprintf "d%d.mtbl" i)) t) ids;
+        let oc = open_out setfile in List.iteri (fun i _ -> output_string oc (Printf.sprintf "d%d.mtbl\n" i)) ids; close_out oc;
+        c_set_clock 1000 0;
+        let f = c_fileset_init_dupsort setfile 0 kind in
+        let it = Rd.c_source_iter (c_fileset_source f) in
+        let out = ref [] in
+        let continue = ref true in
+        while !continue do (match Rd.c_iter_next it with Some e -> out := e :: !out | None -> continue := false) done;
+        Rd.c_iter_destroy it; c_fileset_destroy f;
+        "DONE" ^ Marshal.to_string (List.rev !out) []) in
+    (match r with
+     | Exited (_, s) when String.length s > 4 && String.sub s 0 4 = "DONE" ->
+       let got : (string * string) list = Marshal.from_string s 4 in
+       let all = List.concat_map (fun t -> List.map (fun k -> (k, (if k = "x" then Printf.sprintf "T%d" t else ""))) (table_keys t)) ids in
+       let exp = List.sort (fun (k1, v1) (k2, v2) -> if k1 <> k2 then compare k1 k2 else if kind = 1 then compare v1 v2 else compare v2 v1) all in
+       if got <> exp then
+         fail acc ~kind:"spec_violation" ~what:"[C07,C04] a fileset with a dupsort function does not return every entry of its files, keys ascending, equal keys in dupsort order"
+           (JO [ "case", Lazy.force case; "got", JS (String.concat " " (List.map (fun (k, v) -> k ^ "=" ^ v) got)) ])
+     | _ -> fail acc ~kind:"spec_violation" ~what:"[C07,C04] a fileset with a dupsort function stopped the process" (Lazy.force case));
+    ignore (Sys.command (Printf.sprintf "rm -rf %s" (Filename.quote dir))))
+    [ (1, [ 3; 1; 4 ]); (2, [ 3; 1; 4 ]); (1, [ 2; 2 ]); (2, [ 0; 5; 1; 3 ]) ]
+
 let run ~tier ~seed ~only acc =
   let idx = ref 0 in
   let want () = cur_index := !idx; (match only with None -> true | Some i -> i = !idx) in
@@ -309,6 +342,7 @@ let run ~tier ~seed ~only acc =
                 XCreate (5, 2); XCreate (6, 0); XSetFile [ 1; 2; 3; 4; 5; 6 ]; XAdvance (2, 0); XReloadNow 0; XOpen (0, 8); XClose 6; XOpen (0, 0); XClose 7; XOpen (0, 5); XClose 8; XDestroy 0 ]);
   ] in
   List.iter (fun c -> if want () then check acc ~klass:"directed" c; incr idx) directed;
+  if want () then fileset_dupsort acc; incr idx;
   let n = if tier = "thorough" then 4000 else 500 in
   for _ = 1 to n do
     if want () then check acc ~klass:"random_history" (gen_history (case_rng ~seed ~engine ~index:!idx));
